@@ -23,23 +23,23 @@ Implicit Types s : st W.
 (* a scheduler-internal move *)
 Definition sched s s' : Prop :=
   loci s' = loci s /\ world s' = world s /\ nextid s' = nextid s /\ incl (queue s') (queue s)
-  /\ exists l, out s' = l ++ out s.
+  /\ out s' = out s /\ (wf s -> wf s').
 
 Lemma sched_refl s : sched s s.
-Proof. repeat split; try reflexivity; [apply incl_refl | exists []; reflexivity]. Qed.
+Proof. repeat split; try reflexivity; [apply incl_refl | apply H | apply H]. Qed.
 
 Lemma sched_trans s1 s2 s3 : sched s1 s2 -> sched s2 s3 -> sched s1 s3.
 Proof.
-  intros (a1 & a2 & a3 & a4 & [l1 a5]) (b1 & b2 & b3 & b4 & [l2 b5]). repeat split; try congruence.
-  - eapply incl_tran; eassumption.
-  - exists (l2 ++ l1). rewrite b5, a5, app_assoc. reflexivity.
+  intros (a1 & a2 & a3 & a4 & a5 & a6) (b1 & b2 & b3 & b4 & b5 & b6).
+  split; [congruence|]. split; [congruence|]. split; [congruence|]. split; [eapply incl_tran; eassumption|].
+  split; [congruence | auto].
 Qed.
 
 Lemma sched_same s s' : loci s' = loci s -> world s' = world s -> nextid s' = nextid s -> queue s' = queue s ->
   out s' = out s -> sched s s'.
 Proof.
-  intros H1 H2 H3 H4 H5. split; [exact H1|]. split; [exact H2|]. split; [exact H3|]. rewrite H4, H5.
-  split; [apply incl_refl | exists []; reflexivity].
+  intros H1 H2 H3 H4 H5. split; [exact H1|]. split; [exact H2|]. split; [exact H3|]. unfold wf. rewrite H3, H4, H5.
+  split; [apply incl_refl|]. split; [reflexivity | auto].
 Qed.
 
 Lemma sched_advance a b c s : sched s (advance a b c s).
@@ -48,11 +48,11 @@ Lemma sched_set_clock t s : sched s (set_clock t s).
 Proof. apply sched_same; reflexivity. Qed.
 Lemma sched_set_stuck s : sched s (set_stuck s).
 Proof. apply sched_same; reflexivity. Qed.
-Lemma sched_emit o s : sched s (emit o s).
-Proof. repeat split; try reflexivity; [apply incl_refl | exists [o]; reflexivity]. Qed.
 Lemma sched_discard s : sched s (discard s).
 Proof.
-  unfold discard. repeat split; try reflexivity; cbn [queue set_queue]; [apply discard_dead_incl | exists []; reflexivity].
+  unfold discard. split; [reflexivity|]. split; [reflexivity|]. split; [reflexivity|]. cbn [queue set_queue].
+  split; [apply discard_dead_incl|]. split; [reflexivity|]. unfold wf. cbn [queue nextid set_queue]. intros [H1 H2].
+  split; [apply discard_dead_NoDup, H1|]. rewrite Forall_forall in *. intros x Hx. apply H2. eapply discard_dead_incl. exact Hx.
 Qed.
 
 (* the state an event function entered by call c on s leaves behind (tap included) *)
@@ -102,6 +102,41 @@ Qed.
 
 Lemma Steps_app_sched s0 cs s s' : Steps s0 cs s -> sched s s' -> Steps s0 cs s'.
 Proof. apply st_sched. Qed.
+
+(* ------------------------------------------------------------------ the calls and the output *)
+(* every call writes exactly one handler-entry record, carrying the time the event function is given *)
+Definition call_time (c : call) : Q := match c with CEv _ t _ => t | CPost h => e_time h end.
+Definition hrec_times (o : list obs) : list Q :=
+  flat_map (fun x => match x with OHandler _ t _ _ _ => [t] | _ => [] end) o.
+
+Lemma hrec_times_act l : Forall act_obs l -> hrec_times l = [].
+Proof.
+  induction l as [|x l IH]; intros H; [reflexivity|]. inversion H as [|? ? Hx H']; subst.
+  cbn [hrec_times flat_map]. fold (hrec_times l). rewrite (IH H'). destruct x; cbn in Hx; try contradiction; reflexivity.
+Qed.
+
+Lemma hrec_times_app a b : hrec_times (a ++ b) = hrec_times a ++ hrec_times b.
+Proof. unfold hrec_times. apply flat_map_app. Qed.
+
+Lemma after_hrec_times c s : hrec_times (out (after c s)) = call_time c :: hrec_times (out s).
+Proof.
+  destruct c as [[[pi j] ev] t e|h]; cbn [after call_time].
+  - destruct (fire_event_spec tb pi j ev t e s) as [_ [l [A E]]]. cbv zeta in E. rewrite E.
+    change (OTap t pi (NEv pi j) e :: l ++ ?r) with ((OTap t pi (NEv pi j) e :: l) ++ r).
+    rewrite hrec_times_app. cbn [hrec_times flat_map app]. fold (hrec_times l). rewrite (hrec_times_act l A). reflexivity.
+  - unfold pend_step. cbn [out emit].
+    destruct (fire_shape tb h (set_clock (e_time h) (set_queue (remove_id (e_id h) (queue s)) s))) as [l [A E]].
+    rewrite E. cbn [out set_clock set_queue]. cbn [hrec_times flat_map app]. fold (hrec_times (l ++ OHandler (e_prog h) (e_time h) (e_time h) (e_elem h) None :: out s)).
+    rewrite hrec_times_app, (hrec_times_act l A). reflexivity.
+Qed.
+
+Lemma Steps_hrec_times s0 cs s : Steps s0 cs s ->
+  hrec_times (out s) = rev (map (fun sc => call_time (snd sc)) cs) ++ hrec_times (out s0).
+Proof.
+  intros H. induction H as [|cs s s' H IH Hs|cs s c H IH Hok]; [reflexivity| |].
+  - destruct Hs as (_ & _ & _ & _ & -> & _). exact IH.
+  - rewrite after_hrec_times, IH, map_app, rev_app_distr. reflexivity.
+Qed.
 
 (* ------------------------------------------------------------------ runPendingEvents *)
 Lemma run_pending_steps : forall fuel t n s n' s', run_pending tb fuel t n s = (n', s') ->
